@@ -221,6 +221,10 @@ class WrapperModel(Model):
             return [R(st, ('ev', 'archop', self.newid()))]
         if f[0] == 'bound' and is_bk(f[1]):
             return self.bk_method(f[1], f[2], args, kws, st, line)
+        # --- helper functions of the same module are part of the code under analysis: inline them
+        if f[0] == 'lib' and f[1].startswith(self.module.rel + '.') and ln in self.module.functions and ln not in ('update_wrapper',):
+            fi = self.module.functions[ln]
+            return self.engine.inline(fi.node, ln, {}, args, kws, st, node)
         # --- role object escaping into an unknown callee
         roleargs = [a for a in list(args) + [k[-1] for k in kws]
                     if contains_term(a, lambda t: t == CACHE or is_bk(t) or t == ARCHIVE)]
@@ -290,6 +294,31 @@ class WrapperModel(Model):
             st.emit('KEYS', (), line, val=v)
             st.facts.setdefault('keysver', {})[v] = True
             return [R(st, v)]
+        if m == 'get' and args:
+            k = args[0]
+            dflt = args[1] if len(args) > 1 else NONE
+            outs = []
+            for tok in self.hash_edges(k, st):
+                s2 = st.fork()
+                s2.emit('GETERR', (k, C(tok)), line)
+                outs.append(R(s2, None, tok, line))
+            self.mark_hashable(k, st)
+            res = self.resident(k, st)
+            if st.facts.get('size') == 'empty':
+                res = False
+            if res is not True:
+                s2 = st.fork() if res is None else st
+                s2.emit('GETMISS', (k,), line, extra={'via': 'get'})
+                self.set_resident(k, False, s2)
+                outs.append(R(s2, dflt))
+            if res is not False:
+                v = ('ev', 'get', self.newid())
+                st.emit('GET', (k,), line, val=v)
+                self.set_resident(k, True, st)
+                if st.facts.get('size') is None:
+                    st.facts['size'] = 'nonempty'
+                outs.append(R(st, v))
+            return outs
         if m in ('values', 'items', 'copy', '__len__', '__contains__', 'get', '__getitem__'):
             if m == '__getitem__' and len(args) == 1:
                 return self.sub_load(CACHE, args[0], st, None, line)
